@@ -8,6 +8,14 @@
                 (prescribed derivative vector and bounding event rate).
 The lifting objects are instances of recording subclasses (insert logs its arguments and calls the real insert).
 random.uniform(a, b) = a + (b - a) * u with u taken from a queue (confirmation draw, insert draw, ratio draw).
+  kind "composite": the REAL send_out_state of real instances (real constructors, so _potential_charges is the handler's
+                own lambda) of TwoCompositeObjectSummedBoundingPotentialEventHandler,
+                TwoCompositeObjectCellBoundingPotentialEventHandler and CompositeObjectCellVetoEventHandler on two
+                composite objects of n = 2..4 point masses (real Node / Unit trees, in-state stored through the handler's
+                own _store_in_state / _construct_leaf_cnodes / _extract_active_leaf_unit /
+                _construct_leaf_units_of_composite_objects), constructed with charge=None or charge="q" and
+                prescribed charge vectors (exact zeros allowed in every position).  The stub potential returns
+                base[i][j] * product(charges it is called with); _exchange_velocity is recorded, not executed.
 All numbers are [num, den] pairs (exact wrapper X of c05_lifting.py).
 """
 import random
@@ -127,6 +135,127 @@ def run_fixed(job):
     return res
 
 
+def run_composite(job):
+    from jellyfysh.setting import hypercubic_setting
+    from jellyfysh.base.node import Node
+    from jellyfysh.base.unit import Unit
+    from jellyfysh.base.time import Time
+    from jellyfysh.base.initializer import Initializer
+    from jellyfysh.potential.cell_bounding_potential import CellBoundingPotential
+    from jellyfysh.event_handler.two_composite_object_summed_bounding_potential_event_handler import \
+        TwoCompositeObjectSummedBoundingPotentialEventHandler
+    from jellyfysh.event_handler.two_composite_object_cell_bounding_potential_event_handler import \
+        TwoCompositeObjectCellBoundingPotentialEventHandler
+    from jellyfysh.event_handler.composite_object_cell_veto_event_handler import CompositeObjectCellVetoEventHandler
+    n, ac, a = job["n"], job["active_comp"], job["active"]
+    base = [[dq(x) for x in row] for row in job["base"]]
+    charges = [[dq(x) for x in comp] for comp in job["charges"]]
+    log, exchanged, notes = [], [], []
+    lifting = recording(CLASSES[job["scheme"]], log)
+    setting.reset()
+    hypercubic_setting.HypercubicSetting(beta=1.0, dimension=2, system_length=1.0)
+    setting.set_number_of_root_nodes(2)
+    setting.set_number_of_nodes_per_root_node(n)
+    setting.set_number_of_node_levels(2)
+
+    class Sep(object):
+        @staticmethod
+        def separation_vector(p, q):
+            return (tuple(p), tuple(q))
+    setting.periodic_boundaries = Sep
+    active_velocity = [1.0, 0.0]
+
+    class Pot(object):
+        number_separation_arguments = 1
+        number_charge_arguments = 2
+        potential_change_required = True
+
+        def derivative(self, velocity, separation, *chs):
+            (ca, i), (cb, j) = separation
+            if int(ca) != ac or int(cb) == ac or velocity is not active_velocity:
+                notes.append("derivative called with separation %r" % (separation,))
+            v = base[int(i)][int(j)]
+            for c in chs:
+                v = v * c
+            return v
+
+    class BigCell(CellBoundingPotential):
+        number_separation_arguments = 1
+        number_charge_arguments = 2
+        potential_change_required = True
+
+        def __init__(self):
+            pass
+
+        def derivative(self, *args):
+            return X(10 ** 9)
+
+    class Big(Pot):
+        def derivative(self, *args):
+            return X(10 ** 9)
+    roots = []
+    for c in range(2):
+        moving = c == ac
+        root = Node(Unit(identifier=(c,), position=[float(c), -1.0], charge=None,
+                         velocity=[1.0 / n, 0.0] if moving else None, time_stamp=Time(0.0, 0.0) if moving else None),
+                    weight=1)
+        for i in range(n):
+            act = moving and i == a
+            root.add_child(Node(Unit(identifier=(c, i), position=[float(c), float(i)], charge={"q": charges[c][i]},
+                                     velocity=active_velocity if act else None,
+                                     time_stamp=Time(0.0, 0.0) if act else None), weight=1.0 / n))
+        roots.append(root)
+    res = {}
+    try:
+        kind = job["handler"]
+        if kind == "summed":
+            h = TwoCompositeObjectSummedBoundingPotentialEventHandler(
+                potential=Pot(), bounding_potential=Big(), lifting=lifting, charge=job["charge"])
+        elif kind == "cellbounding":
+            h = TwoCompositeObjectCellBoundingPotentialEventHandler(
+                potential=Pot(), bounding_potential=BigCell(), lifting=lifting, charge=job["charge"])
+            Initializer.initialize(h)
+        else:
+            h = CompositeObjectCellVetoEventHandler(estimator=SimpleNamespace(potential=Pot()), lifting=lifting,
+                                                    potential=Pot(), charge=job["charge"])
+            Initializer.initialize(h)
+        h._exchange_velocity = lambda c1, c2: exchanged.append([list(c1.value.identifier), list(c2.value.identifier)])
+        QUEUE[:] = [dq(job["u_confirm"]), dq(job["u1"]), dq(job["u2"])]
+        if kind == "cellveto":
+            state = [roots[ac]]
+            h._store_in_state(state)
+            h._construct_leaf_cnodes()
+            h._extract_active_leaf_unit()
+            h._bounding_event_rate = X(10 ** 9)
+            out = h.send_out_state(roots[1 - ac])
+        else:
+            state = list(roots)
+            h._store_in_state(state)
+            h._construct_leaf_cnodes()
+            h._extract_active_leaf_unit()
+            h._construct_leaf_units_of_composite_objects()
+            if kind == "cellbounding":
+                h._cells = SimpleNamespace(position_to_cell=lambda position: 7)
+                h._active_cell = 7
+                h._root_units = [r.value for r in roots]
+                h._active_root_unit_index = ac
+                h._relative_cell = 3
+            out = h.send_out_state()
+        res["r"] = "state" if out is state else "other"
+        res["state_ids"] = [list(nd.value.identifier) for nd in out] if isinstance(out, list) else None
+    except Exception as e:  # noqa
+        res["r"] = ["EXC", exc_enum(e)]
+    finally:
+        setting.reset()
+    res["inserts"] = log
+    res["exchanged"] = exchanged
+    res["notes"] = notes[:3]
+    res["draws_left"] = len(QUEUE)
+    return res
+
+
+RUNNERS = {"fill": run_fill, "fixed": run_fixed, "composite": run_composite}
+
 if __name__ == "__main__":
     jobs = read_payload()["jobs"]
-    emit({"out": [run_fill(j) if j["kind"] == "fill" else run_fixed(j) for j in jobs]})
+    emit({"out": [RUNNERS[j["kind"]](j) for j in jobs]})
